@@ -34,7 +34,7 @@ class ModeSim(Sim):
               "flag_flip_between_build_and_backward", "step_inside_user_ctx", "kernel_fault_inside_ctx", "body_raise", "rejected_call_escapes",
               "backward_inside_no_grad", "interior_kept_marked", "interior_kept_retain_ctx", "interior_released", "nograd_result",
               "int_requires_grad_refused", "nonleaf_flag_change_refused", "backward_on_nograd_refused", "mixed_retain_case_not_asserted",
-              "exit_by_exception", "exit_normal", "depth3plus"]
+              "exit_by_exception", "exit_normal", "depth3plus", "module_freeze_unfreeze"]
     RULE = ("one run = a generated block tree of no_grad/retain_grads contexts (constructed possibly earlier and in another mode than where "
             "entered; exits normal or by exception caught 1-6 levels up) with leaf/op/flag/backward/step events inside; distinct = hash of the "
             "block tree with event kinds and exit modes; non-trivial = at least one context was left")
@@ -142,7 +142,9 @@ class ModeSim(Sim):
             return {"k": "detach", "t": rng.choice(ids), "id": st.next_id}
         if r < 0.83:
             return {"k": "numpy", "t": rng.choice(ids)}
-        if r < 0.90:
+        if r < 0.86:
+            return {"k": "module_flag", "ts": sorted(rng.sample(ids, min(len(ids), rng.randint(1, 3)))), "how": rng.choice(["freeze", "unfreeze"])}
+        if r < 0.92:
             if st.opt is None:
                 c = [i for i in leaves if st.T[i].data.dtype.kind == "f"]
                 if c:
@@ -474,6 +476,39 @@ class ModeSim(Sim):
             return
         if t.requires_grad:
             st.fail("C07.numpy_guard", "numpy() accepted on a tensor that requires grad", tensor=i)
+
+    def _ev_module_flag(self, st, ev):
+        """Module.freeze()/unfreeze() is one more way of toggling requires_grad: the same guards apply (only float leaves can be made to
+        require grad; the flag of a non-leaf cannot be changed)"""
+        SG = st.SG
+        ids = [i for i in ev["ts"] if i in st.T]
+        if not ids:
+            st.skipped += 1
+            return
+
+        class Holder(SG.nn.Module):
+            def __init__(self):
+                super().__init__()
+        m = Holder()
+        params = []
+        for n, i in enumerate(ids):
+            p = SG.nn.Parameter(st.T[i])          # shares data, flags and grad_fn with the wrapped tensor
+            setattr(m, f"p{n}", p)
+            params.append((i, p))
+        want = ev["how"] == "unfreeze"
+        before = [(bool(p.requires_grad), p.grad_fn is not None, p.data.dtype.kind) for _, p in params]
+        try:
+            getattr(m, ev["how"])()
+        except Exception:
+            pass            # refusing (an int parameter, a non-leaf) is fine; what matters is the state afterwards
+        st.probes["module_freeze_unfreeze"] += 1
+        for (i, p), (rg0, nonleaf0, kind) in zip(params, before):
+            if kind != "f" and p.requires_grad:
+                st.fail("C07.int_requires_grad", f"Module.{ev['how']}() left an integer tensor with requires_grad=True", tensor=i)
+            if nonleaf0 and rg0 and not p.requires_grad and p.grad_fn is not None:
+                st.fail("C07.flag_setter", f"Module.{ev['how']}() switched requires_grad off on a non-leaf tensor (it still carries a backward function)", tensor=i)
+            if not p.requires_grad and p.grad_fn is not None:
+                st.fail("C07.nograd_result", f"after Module.{ev['how']}() a tensor that does not require grad carries a backward function", tensor=i)
 
     def _ev_opt_new(self, st, ev):
         ids = [i for i in ev["params"] if i in st.T]
